@@ -657,7 +657,7 @@ class Interp:
                 self.exec_block(fv.node.body, env)
             except ReturnSig:
                 pass
-            return list(env.vars['$yield'])
+            return self.models._Iter(list(env.vars['$yield']))
         self.trace_calls.append(fv.qualname)
         try:
             self.exec_block(fv.node.body, env)
@@ -1064,6 +1064,8 @@ class Interp:
             if v.ndim == 0:
                 raise_('TypeError', 'iteration over a 0-d array')
             return [NDArr(x) if isinstance(x, list) else x for x in v.data]
+        if live and isinstance(v, self.models._Iter):
+            return v.live_iter()
         if hasattr(v, 'sym_iter'):
             return v.sym_iter(self)
         if v is None or is_num(v) or isinstance(v, bool):
@@ -1311,18 +1313,26 @@ class Interp:
         raise_('NameError', "name '%s' is not defined" % node.id)
 
     def ex_JoinedStr(self, node, env):
-        parts = []
+        # f'...{x!c:spec}...' == '...{0!c:spec}...'.format(x): one semantics
+        # for both spellings
+        fmt = ''
+        args = []
         for v in node.values:
             if isinstance(v, ast.Constant):
-                parts.append(v.value)
-            else:
-                x = self.eval(v.value, env)
-                spec = ''
-                if v.format_spec is not None:
-                    spec = self.eval(v.format_spec, env)
-                parts.append(self.models.format_value(self, x, spec,
-                                                      v.conversion))
-        return self.models.concat_strs(self, parts)
+                fmt += v.value.replace('{', '{{').replace('}', '}}')
+                continue
+            x = self.eval(v.value, env)
+            spec = ''
+            if v.format_spec is not None:
+                spec = self.eval(v.format_spec, env)
+            if not isinstance(spec, str):
+                return self.models.OpaqueStr('fstring')
+            conv = {-1: '', ord('r'): '!r', ord('s'): '!s',
+                    ord('a'): '!a'}.get(v.conversion, '')
+            fmt += '{%d%s%s}' % (len(args), conv,
+                                 (':' + spec.replace('{', '{{').replace('}', '}}')) if spec else '')
+            args.append(x)
+        return self.models.str_format(self, fmt, args, {})
 
     def ex_Tuple(self, node, env):
         return tuple(self._elts(node.elts, env))
@@ -1566,7 +1576,10 @@ class Interp:
         return out
 
     def ex_GeneratorExp(self, node, env):
-        return self.ex_ListComp(node, env)
+        # evaluated eagerly (pMuTT's generator expressions are pure), but the
+        # value is a one-shot iterator: next(), partial consumption and
+        # exhaustion behave as in Python
+        return self.models._Iter(self.ex_ListComp(node, env))
 
     def ex_SetComp(self, node, env):
         out = set()
